@@ -12,6 +12,7 @@ import (
 	"verifharness/refbmc"
 	"verifharness/refcodec"
 
+	"github.com/cenkalti/backoff/v4"
 	"github.com/gebn/bmc"
 	"github.com/gebn/bmc/pkg/ipmi"
 )
@@ -101,6 +102,11 @@ func c03Exec(run *ev.Run, c ev.Case) {
 		b, st = u.BMC, u.ST
 	} else {
 		e := NewEnv(cfg, memtr.Window)
+		if s.Retries {
+			// a short per-attempt timeout that really elapses when a reply is lost
+			e.T.BlockOnLoss = true
+			e.ST = bmc.VerifNewV2SessionlessTransport(e.T, 200*time.Millisecond, &backoff.ZeroBackOff{})
+		}
 		b, st = e.BMC, e.ST
 		envOfMu.Lock()
 		envOf[b] = e
@@ -112,6 +118,8 @@ func c03Exec(run *ev.Run, c ev.Case) {
 	var cur *genCmd
 	attempt := 0
 	faultKind := 0
+	lostThis := false
+	lostCount := 0
 	envOfMu.Lock()
 	me, ok := envOf[b]
 	envOfMu.Unlock()
@@ -127,7 +135,14 @@ func c03Exec(run *ev.Run, c ev.Case) {
 			}
 			faultKind++
 			m := append([]byte(nil), reply...)
-			switch faultKind % 5 {
+			switch faultKind % 6 {
+			case 5: // the reply is lost: the transport reports a timeout once the attempt's time is up
+				if lostCount >= 3 {
+					return reply, nil
+				}
+				lostCount++
+				lostThis = true
+				return nil, nil
 			case 0: // wrong AuthCode
 				m[len(m)-1] ^= 0x40
 				return m, nil
@@ -195,6 +210,7 @@ func c03Exec(run *ev.Run, c ev.Case) {
 		g := genCommand(r, kind, l)
 		run.Eval(1)
 		cur, attempt = &g, 0
+		lostThis = false
 		first := b.Len()
 		var code ipmi.CompletionCode
 		pv, stk := safe(func() { code, err = sess.SendCommand(ctx, g.Cmd) })
@@ -220,6 +236,16 @@ func c03Exec(run *ev.Run, c ev.Case) {
 			if !c03Datagram(run, c, desc, bmcSess, &g, &e, k > 0) {
 				return
 			}
+		}
+		if lostThis {
+			// a transport failure inside a session ends the command: whatever was sent had to be
+			// a valid datagram of its own (fresh IV and sequence number), and nothing may follow
+			run.Event("replies-lost", 1)
+			if len(evs) != 1 {
+				run.Violation("C03:datagrams-after-lost-reply", fmt.Sprintf("%s: %d datagrams were transmitted around a lost reply, expected the 1 whose reply was lost (err=%v)", desc, len(evs), err), c, nil)
+				return
+			}
+			continue
 		}
 		if err != nil || code != 0 {
 			run.Violation("C03:command-failed", fmt.Sprintf("%s: code=%v err=%v although every datagram verified", desc, code, err), c, nil)
